@@ -1,6 +1,21 @@
 package main
 
 // C18: the three places that draw temporal shard boundaries.
+// orElse runs a unit and, when it bails out, a second way of regenerating the same definition.
+func orElse(first func() string, second func() string) func() string {
+	return func() (out string) {
+		defer func() {
+			if r := recover(); r != nil {
+				if _, isBail := r.(bail); !isBail {
+					panic(r)
+				}
+				out = second()
+			}
+		}()
+		return first()
+	}
+}
+
 func init() {
 	cc := "trillian/ctfe/cert_checker.go"
 	ml := "client/multilog.go"
@@ -41,12 +56,14 @@ func init() {
 		{"Compatible.shape", compatibleShape(lf)},
 		// the log server's window as configured: ValidateLogConfig stores the two timestamps verbatim and refuses limit < start;
 		// setUpLogInfo hands them to the validation options unchanged.
-		{"ValidateLogConfig.windowRefused", condKernel("trillian/ctfe/config.go", "ValidateLogConfig", []string{"NotAfterLimit", "NotAfterStart", "Before"}, "validateLogConfigWindowRefused", "(start limit : Option Int)",
+		{"ValidateLogConfig.windowRefused", orElse(condKernel("trillian/ctfe/config.go", "ValidateLogConfig", []string{"NotAfterLimit", "NotAfterStart", "Before"}, "validateLogConfigWindowRefused", "(start limit : Option Int)",
 			// the stored pointers are non-nil exactly when the proto fields are (windowVerbatim checks where they are set)
 			Spec{Canon: true, Repl: map[string]string{"start != nil": "start.isSome", "limit != nil": "limit.isSome",
 				"cfg.NotAfterStart != nil": "start.isSome", "cfg.NotAfterLimit != nil": "limit.isSome",
 				"vCfg.NotAfterStart != nil": "start.isSome", "vCfg.NotAfterLimit != nil": "limit.isSome",
-				"(*vCfg.NotAfterLimit)": "(limit.getD 0)", "*vCfg.NotAfterStart": "(start.getD 0)", "vCfg.NotAfterLimit": "(limit.getD 0)"}})},
+				"(*vCfg.NotAfterLimit)": "(limit.getD 0)", "*vCfg.NotAfterStart": "(start.getD 0)", "vCfg.NotAfterLimit": "(limit.getD 0)"}}), func() string {
+			return windowRefusedByRole("trillian/ctfe/config.go", "validateLogConfigWindowRefused")
+		})},
 		{"ValidateLogConfig.windowVerbatim", windowVerbatimShape()},
 	}})
 }
